@@ -329,6 +329,18 @@ class Seg:
         return f"<{describe_alphabet(self.alphabet)}{{{self.lo},{'' if self.hi is None else self.hi}}} {self.why}>"
 
 
+def segs_regex(segs: Sequence[Seg]) -> str:
+    """Regex text with exactly the language of the abstract string (used to build writer languages with repetition)."""
+    out = []
+    for sg in segs:
+        if sg.kind == "lit":
+            out.append(re.escape(sg.text))
+        else:
+            cls = "".join(re.escape(c) for c in sorted(sg.alphabet))
+            out.append(f"[{cls}]{{{sg.lo},{'' if sg.hi is None else sg.hi}}}")
+    return "".join(out)
+
+
 def describe_alphabet(a: FrozenSet[str]) -> str:
     for name, s in (("ANY", ANY), ("UNICODE_IDENT", UNICODE_IDENT), ("ASCII_WORD", ASCII_WORD), ("ASCII_ALNUM", ASCII_ALNUM), ("HEX", HEX_LOWER), ("DIGITS", DIGITS)):
         if a == s:
